@@ -333,6 +333,39 @@ Definition c09_acronym_class (L : lang) (acrs : list str) (pos : c09_pos) (e : c
   | _, _ => None
   end.
 
+(* Go: acronyms_to_uppercase (go.rs:579) read as a specification, for acronyms given in lower case: every
+   leftmost non-overlapping occurrence - searched in the ORIGINAL name - of the capitalised acronym that is
+   not followed by a lower-case letter is upper-cased in the result.  The conversion is NOT idempotent (an
+   upper-cased acronym can complete an occurrence of another one: xy, yZw turn XyZw into XYZw, then XYZW).
+   The <Enum><Variant>Inner helper struct is DEFINED under conv (conv (Enum ++ Variant ++ Inner))
+   (go.rs:266 make_anonymous_struct_name, then write_struct) but REFERRED TO as
+   conv (conv (Enum ++ conv Variant ++ Inner)) (go.rs:330 converts the variant name first, go.rs:360 the whole
+   name again): the variant part gets one pass more at the reference. *)
+Fixpoint c09_acr_pass (fuel : nat) (pat orig cur : str) : str :=
+  match fuel with
+  | O => cur
+  | S f =>
+    match orig, cur with
+    | _ :: orig', c :: cur' =>
+      if starts_with pat orig && negb (c09_is_nil pat) then
+        let n := List.length pat in
+        (if match skipn n orig with x :: _ => negb (is_alower x) | [] => true end
+         then str_upper_ascii pat else firstn n cur) ++ c09_acr_pass f pat (skipn n orig) (skipn n cur)
+      else c :: c09_acr_pass f pat orig' cur'
+    | _, _ => cur
+    end
+  end.
+Definition c09_acr_conv (acrs : list str) (name : str) : str :=
+  fold_left (fun res a => c09_acr_pass (S (List.length name)) (c09_capitalise a) name res) acrs name.
+Definition c09_inner_acronym_class (L : lang) (acrs : list str) (enum_orig variant_orig : str) : option string :=
+  match L with
+  | Go => let conv := c09_acr_conv acrs in
+          if str_eqb (conv (conv (enum_orig ++ variant_orig ++ lit "Inner")))
+                     (conv (conv (enum_orig ++ conv variant_orig ++ lit "Inner")))
+          then None else Some "C09-go-acronym-inner"%string
+  | _ => None
+  end.
+
 Definition c09_first {A} (l : list (option A)) : option A :=
   fold_right (fun x acc => match x with Some _ => x | None => acc end) None l.
 
@@ -348,7 +381,12 @@ Definition c09_classes (L : lang) (pfx : str) (acrs : list str) (pd : parsed) : 
                      | C9KInner => [c09_inner_site_class L e]
                      | _ => [c09_parent_site_class L e]
                      end) (c09_entities pd) ++
-  map (c09_inline_generic_class L pfx) (p_aliases pd).
+  map (c09_inline_generic_class L pfx) (p_aliases pd) ++
+  flat_map (fun e => let sh := enum_shared e in
+              flat_map (fun v => match v with
+                                 | VAnon _ vsh => [c09_inner_acronym_class L acrs (original (eid sh)) (original (vid vsh))]
+                                 | _ => []
+                                 end) (evariants sh)) (p_enums pd).
 Definition known_C09 (L : lang) (pfx : str) (acrs : list str) (pd : parsed) : option string :=
   c09_first (c09_classes L pfx acrs pd).
 
@@ -368,7 +406,15 @@ Definition c09_ref_class (L : lang) (pfx : str) (acrs : list str) (pd : parsed) 
     | pos =>
       match c9e_kind i with
       | C9KInner => match owner, pos with
-                    | Some j, C9Payload => if str_eqb (original (c9e_id i)) (original (c9e_id j)) then c09_inner_site_class L i else None
+                    | Some j, C9Payload =>
+                      if str_eqb (original (c9e_id i)) (original (c9e_id j)) then
+                        match c09_inner_site_class L i with
+                        | Some k => Some k
+                        | None => (* the suffix is <variant original>Inner *)
+                          c09_inner_acronym_class L acrs (original (c9e_id i))
+                                                  (firstn (List.length (c9e_suffix i) - 5) (c9e_suffix i))
+                        end
+                      else None
                     | _, _ => None
                     end
       | _ =>
